@@ -613,6 +613,22 @@ def _():
     return G.emit_strings('p_losses', rows, 'loss assembly (pinned shape)')
 
 
+@item('p_clamps')
+def _():
+    """every clamp / eps / masked_fill that keeps an operation finite (pinned shape)"""
+    rows = ['l2norm:' + ast.unparse(return_expr(VQ, 'l2norm')) + ' | defaults ' + ', '.join(ast.unparse(d) for d in find_func(VQ, 'l2norm').args.defaults),
+            'safe_div:' + ast.unparse(return_expr(VQ, 'safe_div')) + ' | defaults ' + ', '.join(ast.unparse(d) for d in find_func(VQ, 'safe_div').args.defaults),
+            'cdist:' + ast.unparse(return_expr(VQ, 'cdist')),
+            'log:' + ast.unparse(return_expr(VQ, 'log')) + ' | defaults ' + ', '.join(ast.unparse(d) for d in find_func(VQ, 'log').args.defaults),
+            'entropy:' + ast.unparse(return_expr(VQ, 'entropy')) + ' | defaults ' + ', '.join(ast.unparse(d) for d in find_func(VQ, 'entropy').args.defaults),
+            'laplace:' + ast.unparse(return_expr(VQ, 'laplace_smoothing')) + ' | defaults ' + ', '.join(ast.unparse(d) for d in find_func(VQ, 'laplace_smoothing').args.defaults),
+            'kmeans.clamp:' + ast.unparse(assigned_expr(VQ, 'kmeans', 'bins_min_clamped')) + ' ; ' + ast.unparse(assigned_expr(VQ, 'kmeans', 'zero_mask')),
+            'lfq.log:' + ast.unparse(return_expr(LFQF, 'log')) + ' | defaults ' + ', '.join(ast.unparse(d) for d in find_func(LFQF, 'log').args.defaults),
+            'fsq.bound:' + ' ; '.join(ast.unparse(n) for n in find_func(FSQF, 'FSQ.bound').body if not isinstance(n, ast.Expr)) + ' | eps default ' + ', '.join(ast.unparse(d) for d in find_func(FSQF, 'FSQ.bound').args.defaults),
+            'rotate_to:' + ' ; '.join(ast.unparse(n).replace('\n', ' ') for n in find_func(VQ, 'rotate_to').body if 'safe_div' in ast.unparse(n) or 'norm' in ast.unparse(n))]
+    return G.emit_strings('p_clamps', rows, 'clamps / eps (pinned shape)')
+
+
 # =============================================================================== inventories (G4)
 for fname, cls, tag in ((VQ, 'EuclideanCodebook', 'euclid'), (VQ, 'CosineSimCodebook', 'cosine'), (VQ, 'VectorQuantize', 'vq'),
                         (FSQF, 'FSQ', 'fsq'), (LFQF, 'LFQ', 'lfq'), (SIMVQ, 'SimVQ', 'simvq'), (RPQ, 'RandomProjectionQuantizer', 'rpq'),
